@@ -209,6 +209,25 @@ class SectionMachine(object):
             s.insert(op[1], it)
             M.insert(op[1], {"item": it, "orig": op[2]})
             inserted = op[2]
+        elif kind == "recopy":
+            # the section goes through pickle / copy and the history continues on the copy (same case handling expected)
+            if self.check13 and self.las is not None:
+                r.count("op-skipped")
+                return
+            how = op[1]
+            new = copy.deepcopy(s) if how == "deepcopy" else (copy.copy(s) if how == "copy" else pickle.loads(pickle.dumps(s, int(how))))
+            items = list(list.__iter__(new))
+            if len(items) != len(M):
+                self.fail("C15.structure", "a %s copy of the section holds %d items, the section %d" % (how, len(items), len(M)))
+                return
+            if self.las is not None:
+                if self.kind not in ("well", "params", "curves", "version"):
+                    r.count("op-skipped")
+                    return
+                setattr(self.las, self.kind, new)           # the LASFile now holds the copy
+            self.s = new
+            self.M = [{"item": it, "orig": m["orig"]} for it, m in zip(items, M)]
+            s, M = self.s, self.M
         elif kind == "move":
             # an item object that already lived in the section (and may carry a suffix) is taken out and put back elsewhere
             if not M:
@@ -531,6 +550,8 @@ def gen_ops(g, n, names, c15=False):
             elif q < 0.85:
                 ops.append(["probe_slice", g.choice([None, 0, 1, -1, -2, 3]), g.choice([None, 0, 1, -1, 2, 5]),
                             g.choice([None, 1, 2, -1])])
+            elif q < 0.90:
+                ops.append(["recopy", g.choice(["deepcopy", "copy", "2", "4", "5", "0"])])
             elif q < 0.93:
                 ops.append(["del_absent", key()])
             elif q < 0.97:
